@@ -230,6 +230,31 @@ impl Boxes {
         add_opt("opt-bool", "bool", &[0]);
         add_opt("opt-date", "date", &[4]);
         add_opt("opt-datetime", "datetime", &[4]);
+        // lists of integers (the right operand of IN when it is a column and not a literal): the element type, the
+        // size range, and every list of grid elements within the size range - repeated elements included
+        {
+            let mk = |elems: &[i64], min: usize, max: usize| -> Boxed {
+                let mut points: Vec<Value> = vec![];
+                let mut cur: Vec<Vec<i64>> = vec![vec![]];
+                for len in 1..=max {
+                    let mut next = vec![];
+                    for c in &cur {
+                        for e in elems {
+                            let mut c2 = c.clone();
+                            c2.push(*e);
+                            next.push(c2);
+                        }
+                    }
+                    cur = next;
+                    if len >= min {
+                        points.extend(cur.iter().map(|l| Value::list(l.iter().map(|i| Value::integer(*i)))));
+                    }
+                }
+                Boxed { kind: "list-int", desc: format!("list(int{:?}, {min}..{max})", elems), data_type: DataType::list(DataType::integer_values(elems.to_vec()), min, max), points }
+            };
+            let v = vec![mk(&[0, 1], 2, 2), mk(&[0, 1], 1, 2), mk(&[2], 1, 1), mk(&[-3, 0, 5], 1, 2), mk(&[0, 1, 5], 3, 3)];
+            by_kind.insert("list-int", [v.clone(), v.clone(), v.clone(), v.iter().take(1).cloned().collect()]);
+        }
         for (_, lists) in by_kind.iter_mut() {
             for l in lists.iter_mut() {
                 *l = l.drain(..).map(sanitize).filter(|b| !b.points.is_empty()).collect();
@@ -738,9 +763,12 @@ pub fn run(ctx: &Ctx) -> Report {
     let base = boxes.base_kinds();
     for f in all_functions() {
         let n = arity_of(f);
+        // list-typed operands are explored for IN only (the one function of the SQL fragment that takes a list)
+        let scalar_kinds: Vec<&'static str> = all_kinds.iter().copied().filter(|k| *k != "list-int").collect();
         let kind_lists: Vec<Vec<&'static str>> = match n {
             0 => vec![],
-            1 | 2 => (0..n).map(|_| all_kinds.clone()).collect(),
+            2 if matches!(f, Function::InList) => vec![scalar_kinds.clone(), all_kinds.clone()],
+            1 | 2 => (0..n).map(|_| scalar_kinds.clone()).collect(),
             _ => (0..n).map(|_| base.clone()).collect(),
         };
         for kt in cartesian(&kind_lists) {
